@@ -19,13 +19,16 @@ DATA = {"x": "X", "y": 7}
 
 def _items(r, depth: int, avail: list, in_block: bool, root: bool, tag: str) -> list:
     out = []
-    for _ in range(r.randint(1, 4)):
+    # a block's default body may be empty (a placeholder for descendants to fill)
+    for _ in range(r.choice([0, 1, 1, 2, 3, 4]) if in_block else r.randint(1, 4)):
         c = r.random()
         if c < 0.35 or not avail or depth <= 0:
             if in_block and r.random() < 0.35:
                 out.append(["super"])
             elif r.random() < 0.25:
                 out.append(["var", r.choice(["x", "y", "i"])])
+            elif r.random() < 0.12:
+                out.append(["text", r.choice([" ", "\n", "  "])])  # whitespace only
             else:
                 out.append(["text", tag + r.choice(["t", "u", " ", "-"])])
         elif c < 0.9:
@@ -78,6 +81,9 @@ def cases(draw):
 def evaluate(case) -> Verdict:
     v = Verdict()
     chain, fault = case["chain"], case.get("fault")
+    if any(not b[1] for t in chain for b in R.blocks_of(t["items"])):
+        v.labels.append("malformed(block without a name)")  # only a minimiser candidate can look like this
+        return v
     n = len(chain)
     names = [f"t{i}" for i in range(n)]
     sources = {}
